@@ -300,7 +300,7 @@ func (formatter *typeFormatter) formatClassComments(comments []string) string {
 
 	buffer.WriteString(`    """` + "\n")
 	for _, commentLine := range comments {
-		buffer.WriteString(fmt.Sprintf("    %s\n", commentLine))
+		buffer.WriteString(fmt.Sprintf("    %s\n", escapeDocstring(commentLine)))
 	}
 	buffer.WriteString(`    """` + "\n\n")
 
